@@ -1284,6 +1284,18 @@ func (cs *State) enterPrevote(height int64, round int32) {
 		// Done enterPrevote:
 		cs.updateRoundStep(round, cstypes.RoundStepPrevote)
 		cs.newStep()
+
+		// addVote takes us on from here when a prevote completes +2/3 of this
+		// round. If the round's prevotes are in the vote set already (replayed from
+		// the WAL before this step was reached, our own among them), no such call
+		// will come and nothing would ever end the step: do what addVote would do.
+		if prevotes := cs.Votes.Prevotes(round); prevotes != nil && prevotes.HasTwoThirdsAny() {
+			if blockID, ok := prevotes.TwoThirdsMajority(); ok && (cs.isProposalComplete() || len(blockID.Hash) == 0) {
+				cs.enterPrecommit(height, round)
+			} else {
+				cs.enterPrevoteWait(height, round)
+			}
+		}
 	}()
 
 	logger.Debug("entering prevote step", "current", log.NewLazySprintf("%v/%v/%v", cs.Height, cs.Round, cs.Step))
